@@ -309,6 +309,35 @@ def schedule (cfg : FanCfg) (n : Nat) (fails : Nat → Bool) : Nat → Nat → S
     | some s' => schedule cfg n fails fuel seed' s'
     | none => s
 
+/-! ## 2b. scenario `closew`: closers that wait for each other
+
+    The closers of this scenario are slow in a particular way: closer i (unless `fast i`) returns from its call only when
+    every one of the n closers has been entered. That is behaviour of the CLOSERS (the environment), so it restricts which
+    of the system's steps the environment lets happen (`fireW` disables `callEnd` of a waiting closer), never what App.Close
+    does. A system that holds some closer back until another has returned gets stuck under this environment. -/
+
+/-- every one of the n closers has been entered -/
+def allEntered (n : Nat) (s : St) : Bool := (List.range n).all fun i => decide (1 ≤ s.calls i)
+
+def fireW (cfg : FanCfg) (n : Nat) (fails fast : Nat → Bool) (s : St) : Act → Option St
+  | .main => fire cfg n fails s .main
+  | .w i =>
+    if s.wpc i = .calling ∧ fast i = false ∧ allEntered n s = false then none
+    else fire cfg n fails s (.w i)
+
+/-- `schedule` under the environment of `closew` -/
+def scheduleW (cfg : FanCfg) (n : Nat) (fails fast : Nat → Bool) : Nat → Nat → St → St
+  | 0, _, s => s
+  | fuel + 1, seed, s =>
+    if s.mainPc = 3 then s else
+    let seed' := (seed * 1103515245 + 12345) % 2147483648
+    let acts := (List.range (n + 1)).map fun j =>
+      let a := (j + seed' / 65536) % (n + 1)
+      if a = n then Act.main else Act.w a
+    match acts.findSome? (fireW cfg n fails fast s) with
+    | some s' => scheduleW cfg n fails fast fuel seed' s'
+    | none => s
+
 /-! ## 3. sync2.Map and ConcurrentSets: primitives, methods, histories -/
 
 abbrev MapSt := Nat → Option Nat     -- contents of the underlying sync.Map (keys, values: Nat)
@@ -611,5 +640,111 @@ def quiescentObs (m0 : MapSt) (queues : List (List Op)) (ks : List Nat) : Nat ×
 def removedKeys (ops : List Op) : List Nat := ops.filterMap fun | .remove k => some k | _ => none
 def putKeys (ops : List Op) : List Nat := ops.filterMap fun | .put k => some k | _ => none
 
+
+/-! ## 4. concurrent starts of different Apps: the option loop of App.Run (app/app.go:65-68, app/global_option.go)
+
+      func (s *App) Run(ops ...SettingOption) error {
+          for _, op := range append(ops, globalOptions...) { op(s) }
+
+    `ops` is the callee's own variadic slice (one backing array per call, cap = len), `globalOptions` a package-level slice
+    shared by every App of the process (filled by `app.Settings`, whose `append`s may leave cap > len). Slices are
+    (array, len, cap) over a heap of backing arrays; `append(a, b...)` writes in place when the capacity of its FIRST
+    argument suffices, otherwise it copies into a fresh array. One atomic step per `append` and one per loop iteration;
+    any number of Apps run these steps interleaved. What is not modelled: the growth policy (a fresh array gets exactly
+    the capacity needed; nothing below depends on it), torn writes inside one `append`. -/
+
+/-- a setting option, as far as the runners are concerned: `comps j` = the SetComponents(…) option built by the caller that
+    starts App j (it registers App j's runners and components with whichever App it is APPLIED to); `other` = any other -/
+inductive SOpt
+  | other
+  | comps (owner : Nat)
+deriving DecidableEq, Repr
+
+structure Slice where
+  arr : Nat
+  len : Nat
+  cap : Nat
+deriving DecidableEq, Repr
+
+abbrev Heap := Nat → Nat → SOpt      -- backing array → index → element
+
+def readSlice (h : Heap) (s : Slice) : List SOpt := (List.range s.len).map (h s.arr)
+
+def writeAt (h : Heap) (arr off : Nat) (l : List SOpt) : Heap :=
+  fun a k => if a = arr ∧ off ≤ k ∧ k < off + l.length then l.getD (k - off) .other else h a k
+
+/-- Go's `append(a, b...)`: (heap, next unused array, resulting slice) -/
+def goAppend (h : Heap) (next : Nat) (a b : Slice) : Heap × Nat × Slice :=
+  if a.len + b.len ≤ a.cap then
+    (writeAt h a.arr a.len (readSlice h b), next, ⟨a.arr, a.len + b.len, a.cap⟩)
+  else
+    (writeAt (writeAt h next 0 (readSlice h a)) next a.len (readSlice h b), next + 1, ⟨next, a.len + b.len, a.len + b.len⟩)
+
+structure StartSt where
+  heap : Heap
+  next : Nat                    -- next unused backing array
+  sl : Nat → Option Slice       -- App i's `append(…)` result, once computed
+  pos : Nat → Nat               -- App i's loop index
+  applied : Nat → List SOpt     -- the options applied to App i so far, in order
+
+/-- the process: `globalsFirst = false` is the code that exists (`append(ops, globalOptions...)`) -/
+structure StartCfg where
+  globalsFirst : Bool
+  g : Slice                     -- globalOptions
+  ops : Nat → Slice             -- App i's variadic slice
+  napps : Nat
+
+def startInit (h0 : Heap) (next0 : Nat) : StartSt := ⟨h0, next0, fun _ => none, fun _ => 0, fun _ => []⟩
+
+/-- App i evaluates `append(…)` -/
+def buildSt (c : StartCfg) (s : StartSt) (i : Nat) : StartSt :=
+  let r := if c.globalsFirst then goAppend s.heap s.next c.g (c.ops i) else goAppend s.heap s.next (c.ops i) c.g
+  { s with heap := r.1, next := r.2.1, sl := upd s.sl i (some r.2.2) }
+
+/-- App i runs one iteration of its loop: reads the element and applies it to itself -/
+def applySt (s : StartSt) (i : Nat) (sl : Slice) : StartSt :=
+  { s with pos := upd s.pos i (s.pos i + 1), applied := upd s.applied i (s.applied i ++ [s.heap sl.arr (s.pos i)]) }
+
+inductive StartStep (c : StartCfg) : StartSt → StartSt → Prop
+  | build (s : StartSt) (i : Nat) (hi : i < c.napps) (h : s.sl i = none) : StartStep c s (buildSt c s i)
+  | apply (s : StartSt) (i : Nat) (sl : Slice) (hi : i < c.napps) (h : s.sl i = some sl) (hp : s.pos i < sl.len) :
+      StartStep c s (applySt s i sl)
+
+inductive StartSteps (c : StartCfg) : StartSt → StartSt → Prop
+  | refl (s) : StartSteps c s s
+  | tail (s t u) : StartSteps c s t → StartStep c t u → StartSteps c s u
+
+/-- App i has left its option loop -/
+def startDone (s : StartSt) (i : Nat) : Prop := ∃ sl, s.sl i = some sl ∧ s.pos i = sl.len
+
+/-! executable: the schedule a rendezvous inside a global option produces — every App evaluates its `append`, then (all
+    of them lined up) every App runs its loop -/
+
+def applyAll (s : StartSt) (i : Nat) : Nat → StartSt
+  | 0 => s
+  | fuel + 1 =>
+    match s.sl i with
+    | some sl => if s.pos i < sl.len then applyAll (applySt s i sl) i fuel else s
+    | none => s
+
+def startRendezvous (c : StartCfg) (s0 : StartSt) : StartSt :=
+  let built := (List.range c.napps).foldl (fun s i => if s.sl i = none then buildSt c s i else s) s0
+  (List.range c.napps).foldl (fun s i => applyAll s i ((s.sl i).map (·.len) |>.getD 0)) built
+
+/-- the standard layout of a process: globalOptions in array 0 (`glen` options, none of them a SetComponents, capacity
+    `gcap`), App i's variadic slice in array i+1: `[comps i, other, …]` with `nops` elements, cap = len -/
+def stdHeap : Heap := fun a k => if a = 0 then .other else if k = 0 then .comps (a - 1) else .other
+
+def stdCfg (globalsFirst : Bool) (glen gcap nops napps : Nat) : StartCfg :=
+  ⟨globalsFirst, ⟨0, glen, gcap⟩, fun i => ⟨i + 1, nops, nops⟩, napps⟩
+
+/-- how often the runners that were registered with App j's SetComponents option are invoked in one round of concurrent
+    starts: once by every App that applied that option (Ioc.App: every registered runner is invoked once per start) -/
+def runsOf (c : StartCfg) (s : StartSt) (j : Nat) : Nat :=
+  ((List.range c.napps).filter fun i => (s.applied i).contains (.comps j)).length
+
+/-- … and how many of those invocations happen in the start of an App other than j -/
+def foreignOf (c : StartCfg) (s : StartSt) (j : Nat) : Nat :=
+  ((List.range c.napps).filter fun i => i != j && (s.applied i).contains (.comps j)).length
 
 end Ioc.Conc
